@@ -211,4 +211,146 @@ theorem applyLim_char {rk : Nat → Nat} {s : State} (i : Inv rk s) (cfg : Cfg) 
                 · simp only [hjl, if_false, List.mem_cons, Ne.symm hjl, false_or]
                   exact ih' j
 
+
+/-- same heap up to the memlimit counters -/
+def EqButCur (s s' : State) : Prop :=
+  ∀ j : Nat, (s'.get j).map (fun o => { o with lcur := 0 }) = (s.get j).map (fun o => { o with lcur := 0 })
+
+theorem EqButCur.get {s s' : State} (h : EqButCur s s') {j : Nat} {o : Obj} (hj : s.get j = some o) :
+    ∃ o', s'.get j = some o' ∧ o' = { o with lcur := o'.lcur } := by
+  have := h j
+  rw [hj] at this
+  cases h' : s'.get j with
+  | none => rw [h'] at this; cases this
+  | some o' =>
+    rw [h'] at this
+    simp only [Option.map_some, Option.some.injEq] at this
+    refine ⟨o', rfl, ?_⟩
+    cases o; cases o'; simp_all
+
+theorem EqButCur.none {s s' : State} (h : EqButCur s s') {j : Nat} (hj : s.get j = none) : s'.get j = none := by
+  have := h j
+  rw [hj] at this
+  cases h' : s'.get j with
+  | none => rfl
+  | some o' => rw [h'] at this; cases this
+
+theorem findLim_congr {s s' : State} (h : EqButCur s s') (cs : List Id) : findLim s' cs = findLim s cs := by
+  induction cs with
+  | nil => rfl
+  | cons c cs ih =>
+    simp only [findLim]
+    cases hc : s.get c with
+    | none => rw [h.none hc]; exact ih
+    | some co =>
+      obtain ⟨co', hco', e⟩ := h.get hc
+      rw [hco']
+      have : isLimit co' = isLimit co := by rw [e]; rfl
+      simp only [this, ih]
+
+theorem limitsAbove_congr {s s' : State} (h : EqButCur s s') (cfg : Cfg) (f : Nat) (t : Option Id) :
+    limitsAbove cfg f s' t = limitsAbove cfg f s t := by
+  induction f generalizing t with
+  | zero => rfl
+  | succ f ih =>
+    simp only [limitsAbove]
+    cases t with
+    | none => rfl
+    | some t =>
+      simp only []
+      cases ht : s.get t with
+      | none => rw [h.none ht]
+      | some o =>
+        obtain ⟨o', ho', e⟩ := h.get ht
+        rw [ho']
+        simp only []
+        have e1 : o'.useLim = o.useLim := by rw [e]
+        have e2 : o'.hasLim = o.hasLim := by rw [e]
+        have e3 : o'.parent = o.parent := by rw [e]
+        have e4 : o'.children = o.children := by rw [e]
+        rw [e1, e2, e3, e4, findLim_congr h, ih]
+        cases findLim s o.children with
+        | none => rfl
+        | some l =>
+          simp only []
+          cases hl : s.get l with
+          | none => rw [h.none hl]
+          | some lb =>
+            obtain ⟨lb', hlb', -⟩ := h.get hl
+            rw [hlb']
+
+theorem applyLim_eqButCur {rk : Nat → Nat} {s : State} (i : Inv rk s) (cfg : Cfg) (f : Nat) (t : Option Id)
+    (d : Int) (force : Bool) (s' : State) (h : applyLim cfg f s t d force = some s') : EqButCur s s' := by
+  intro j
+  obtain ⟨h1, h2⟩ := applyLim_char i cfg f t d force s' h j
+  by_cases hm : j ∈ limitsAbove cfg f s t
+  · rw [h1 hm]; cases s.get j <;> simp
+  · rw [h2 hm]
+
+/-- only a positive, unforced charge can be refused -/
+theorem applyLim_isSome_of (cfg : Cfg) (f : Nat) (s : State) (t : Option Id) (d : Int) (force : Bool)
+    (hd : d ≤ 0 ∨ force = true) : (applyLim cfg f s t d force).isSome = true := by
+  induction f generalizing t with
+  | zero => simp [applyLim]
+  | succ f ih =>
+    simp only [applyLim]
+    cases t with
+    | none => simp
+    | some t =>
+      simp only []
+      cases s.get t with
+      | none => simp
+      | some o =>
+        simp only []
+        split
+        · simp
+        · split
+          · exact ih _
+          · split
+            · split
+              · exact ih _
+              · simp
+            · split
+              · simp
+              · have hnd : (decide (d > 0) && !force) = false := by
+                  rcases hd with hd | hd
+                  · have : decide (d > 0) = false := by simp; omega
+                    simp [this]
+                  · simp [hd]
+                simp only [hnd, Bool.false_and, Bool.false_eq_true, if_false]
+                have := ih o.parent
+                revert this
+                cases applyLim cfg f s o.parent d force <;> simp
+
+/-- **a failed request changes nothing**: charging `d > 0` and rolling it back (the path taken when
+the underlying allocator fails) restores every object -/
+theorem applyLim_rollback {rk : Nat → Nat} {s : State} (i : Inv rk s) (cfg : Cfg) (f f' : Nat) (t : Option Id)
+    (d : Int) (hd : 0 ≤ d) (force : Bool) (s1 : State) (h1 : applyLim cfg f s t d false = some s1)
+    (hf : limitsAbove cfg f' s t = limitsAbove cfg f s t) :
+    ∀ j : Nat, ((applyLim cfg f' s1 t (-d) force).getD s1).get j = s.get j := by
+  intro j
+  have hsh := applyLim_shapeEq cfg f s t d false s1 h1
+  have i1 : Inv rk s1 := i.shapeEq hsh
+  have he := applyLim_eqButCur i cfg f t d false s1 h1
+  obtain ⟨a1, a2⟩ := applyLim_char i cfg f t d false s1 h1 j
+  cases h2 : applyLim cfg f' s1 t (-d) force with
+  | none =>
+    -- cannot be refused: the amount is not positive
+    exfalso
+    have := applyLim_isSome_of cfg f' s1 t (-d) force (Or.inl (by omega))
+    rw [h2] at this; cases this
+  | some s2 =>
+    simp only [Option.getD_some]
+    obtain ⟨b1, b2⟩ := applyLim_char i1 cfg f' t (-d) force s2 h2 j
+    rw [limitsAbove_congr he, hf] at b1 b2
+    by_cases hm : j ∈ limitsAbove cfg f s t
+    · rw [b1 hm, a1 hm]
+      cases s.get j with
+      | none => rfl
+      | some o =>
+        simp only [Option.map_some, Option.some.injEq]
+        have : (((((o.lcur : Int) + d).toNat : Nat) : Int) + -d).toNat = o.lcur := by omega
+        rw [this]
+    · rw [b2 hm, a2 hm]
+
 end Usual.C01
